@@ -91,6 +91,15 @@ Definition round_half_even_div (n d : Z) : Z :=
   let q := n / d in let r := n mod d in
   if 2 * r <? d then q else if d <? 2 * r then q + 1 else if Z.even q then q else q + 1.
 
+(* the magnitude of x in hundredths, rounded as %0.2f rounds it (finite x) *)
+Definition f2_centi (x : f64) : Z :=
+  match x with
+  | B754_finite _ m e _ =>
+    let mz := Zpos m in
+    if 0 <=? e then mz * 2 ^ e * 100 else round_half_even_div (mz * 100) (2 ^ (- e))
+  | _ => 0
+  end.
+
 Definition fmt_f2 (x : f64) : str :=
   match x with
   | B754_nan => s_of "NaN"
@@ -98,7 +107,6 @@ Definition fmt_f2 (x : f64) : str :=
   | B754_infinity true => s_of "-Inf"
   | B754_zero s => (if s then [45] else []) ++ s_of "0.00"
   | B754_finite s m e _ =>
-    let mz := Zpos m in
-    let q := if 0 <=? e then mz * 2 ^ e * 100 else round_half_even_div (mz * 100) (2 ^ (- e)) in
+    let q := f2_centi x in
     (if s then [45] else []) ++ itoa (q / 100) ++ [46] ++ frac_digits 2 (q mod 100) []
   end.
